@@ -43,8 +43,9 @@ def write(prop, tier, seed, records, wall_s, violations, assumptions, explanatio
     )
     ev = dict(property_id=prop, tier=tier, seed=seed, level="model_checking", coverage=cov,
               assumptions=assumptions, wall_s=round(wall_s, 2), violations=violations)
-    os.makedirs(os.path.join(VERIF, "evidence"), exist_ok=True)
-    path = os.path.join(VERIF, "evidence", f"{prop}.json")
+    edir = os.environ.get("VERIF_EVIDENCE_DIR") or os.path.join(VERIF, "evidence")     # override: timing sweeps on scratch copies
+    os.makedirs(edir, exist_ok=True)
+    path = os.path.join(edir, f"{prop}.json")
     tmp = path + ".tmp"
     with open(tmp, "w") as f:
         json.dump(ev, f, indent=1, default=str)
